@@ -155,6 +155,11 @@ func (fr *frame) formatValue(verb byte, flags string, a value) value {
 		if (verb == 'd' || verb == 'v') && flags == "" {
 			return fr.formatInt(x)
 		}
+		if verb == 's' && flags == "" {
+			names := map[types.BasicKind]string{types.Int: "int", types.Int8: "int8", types.Int16: "int16", types.Int32: "int32", types.Int64: "int64",
+				types.Uint: "uint", types.Uint8: "uint8", types.Uint16: "uint16", types.Uint32: "uint32", types.Uint64: "uint64", types.Uintptr: "uintptr"}
+			return concat(concat("%!s("+names[x.k]+"=", fr.formatInt(x)), ")")
+		}
 		return opaqueStr("verb " + string(verb) + " on symbolic integer")
 	case float32, float64:
 		return fmt.Sprintf("%"+flags+string(verb), x)
